@@ -2437,6 +2437,8 @@ namespace ST
             const char *next = c_str();
             const char *endp = next + size();
             size_t splitlen = std::char_traits<char>::length(splitter);
+            if (splitlen == 0)
+                max_splits = 0;     // An empty separator never matches
             while (max_splits) {
                 const char *sp = (cs == case_sensitive)
                         ? _ST_PRIVATE::find_cs(next, endp - next, splitter, splitlen)
@@ -2459,6 +2461,8 @@ namespace ST
                                   case_sensitivity_t cs = case_sensitive) const
         {
             std::vector<string> result;
+            if (splitter.empty())
+                max_splits = 0;     // An empty separator never matches
 
             const char *next = c_str();
             const char *endp = next + size();
